@@ -50,7 +50,15 @@ type scriptConn struct {
 
 func newScriptConn(in []byte) *scriptConn { return &scriptConn{r: bytes.NewReader(in)} }
 
-func (b *scriptConn) Read(p []byte) (int, error) { return b.r.Read(p) }
+func (b *scriptConn) Read(p []byte) (int, error) {
+	b.mu.Lock()
+	closed := b.closed
+	b.mu.Unlock()
+	if closed {
+		return 0, net.ErrClosed
+	}
+	return b.r.Read(p)
+}
 func (b *scriptConn) Write(p []byte) (int, error) {
 	b.mu.Lock()
 	defer b.mu.Unlock()
